@@ -559,4 +559,179 @@ Proof.
   rewrite (Pbody_plain m None [] (tw_parse m Hok) I). reflexivity.
 Qed.
 
+(* ------------------------------------------------------------------ what the parser returns is valid *)
+Definition okm (m : ms) : Prop := ms_text_ok m = true.
+
+Lemma parse_num_le : forall s n, parse_num s = Ok n -> n <= U32_MAX.
+Proof.
+  intros s n H. unfold parse_num in H. destruct (tb_eqb s n_0).
+  - inversion H. unfold U32_MAX. lia.
+  - assert (Hu : u32_from_str s = Ok n -> n <= U32_MAX).
+    { unfold u32_from_str. destruct s; [discriminate|]. destruct (dval (n0 :: s) 0); [|discriminate].
+      destruct (n1 <=? U32_MAX) eqn:E; [|discriminate]. intros X. inversion X. subst. apply N.leb_le. exact E. }
+    destruct s; [apply Hu; exact H|]. destruct ((49 <=? n0) && (n0 <=? 57)); [apply Hu; exact H | discriminate].
+Qed.
+
+Lemma from_ast_ok : forall m m', from_ast m = Ok m' -> m' = m /\ chk m = true.
+Proof. intros m m' H. unfold MsTextModel.from_ast in H. destruct (chk m); [inversion H; auto | discriminate]. Qed.
+
+Lemma pop_n_spec : forall n st l r, pop_n n st = Ok (l, r) -> st = l ++ r /\ length l = n.
+Proof.
+  induction n as [|n IH]; intros st l r H.
+  - cbn in H. inversion H. auto.
+  - cbn [pop_n] in H. destruct st as [|m st]; [discriminate|]. cbn [pop obind] in H.
+    destruct (pop_n n st) as [[l' r']| |] eqn:E; cbn [obind] in H; try discriminate.
+    inversion H; subst. destruct (IH _ _ _ E) as [-> <-]. auto.
+Qed.
+
+Lemma map_o_len : forall A B (f : A -> outcome ms_err B) l bs, map_o f l = Ok bs -> length bs = length l.
+Proof.
+  induction l as [|a l IH]; intros bs H.
+  - inversion H. reflexivity.
+  - cbn [map_o] in H. destruct (f a); cbn [obind] in H; try discriminate.
+    destruct (map_o f l); cbn [obind] in H; try discriminate. inversion H. cbn. f_equal. apply IH. reflexivity.
+Qed.
+
+Lemma vth_spec : forall max kids k rest, verify_threshold max kids = Ok (k, rest) ->
+  validate_k_n max k (length rest) = true /\ k <= U32_MAX.
+Proof.
+  intros max kids k rest H. unfold verify_threshold in H. destruct kids as [|kc r]; [discriminate|].
+  destruct (n_kids kc); [|discriminate]. destruct (parse_num (t_name kc)) eqn:E; try discriminate.
+  destruct (validate_k_n max a (length r)) eqn:V; [|discriminate]. inversion H; subst.
+  split; [exact V | eapply parse_num_le; exact E].
+Qed.
+
+Lemma vlock_spec : forall bad kids n, verify_lock bad kids = Ok n -> lock_ok n = true.
+Proof.
+  intros bad kids n H. unfold verify_lock in H. destruct kids as [|c [|? ?]]; try discriminate.
+  destruct (n_kids c); [|discriminate]. destruct (parse_num (t_name c)); try discriminate.
+  destruct (lock_ok a) eqn:E; [|discriminate]. inversion H; subst. exact E.
+Qed.
+
+Lemma binary_ok : forall (mk : ms -> ms -> ms) kids st new st1,
+  (forall x y, chk (mk x y) = true -> okm x -> okm y -> okm (mk x y)) ->
+  binary_frag chk mk kids st = Ok (new, st1) -> Forall okm st -> okm new /\ Forall okm st1.
+Proof.
+  intros mk kids st new st1 Hmk H HF. unfold binary_frag in H.
+  destruct kids as [|? [|? [|? ?]]]; try discriminate.
+  destruct st as [|x [|y st]]; try discriminate. cbn [pop obind] in H.
+  destruct (from_ast (mk x y)) eqn:E; cbn [obind] in H; try discriminate.
+  inversion H; subst. apply from_ast_ok in E. destruct E as [-> Hc].
+  inversion HF as [|? ? Hx HF1]; subst. inversion HF1 as [|? ? Hy HF2]; subst. split; auto.
+Qed.
+
+Lemma multi_ok : forall max (mk : N -> list key -> ms) kids st new st1,
+  (forall k ks, chk (mk k ks) = true -> validate_k_n max k (length ks) = true -> okm (mk k ks)) ->
+  multi_frag parse_key chk max mk kids st = Ok (new, st1) -> Forall okm st -> okm new /\ Forall okm st1.
+Proof.
+  intros max mk kids st new st1 Hmk H HF. unfold multi_frag in H.
+  destruct (verify_threshold max kids) as [[k rest]| |] eqn:E; cbn [obind] in H; try discriminate.
+  destruct (map_o (verify_terminal parse_key) rest) as [ks| |] eqn:E2; cbn [obind] in H; try discriminate.
+  destruct (from_ast (mk k ks)) eqn:E3; cbn [obind] in H; try discriminate.
+  inversion H; subst. apply from_ast_ok in E3. destruct E3 as [-> Hc].
+  apply vth_spec in E. destruct E as [Hv _]. apply map_o_len in E2. rewrite <- E2 in Hv. split; auto.
+Qed.
+
+Lemma okm_bin : forall (c : ms -> ms -> ms) x y,
+  (forall a b, ms_text_ok (c a b) = chk (c a b) && (ms_text_ok a && ms_text_ok b)) ->
+  chk (c x y) = true -> okm x -> okm y -> okm (c x y).
+Proof. intros c x y E Hc Hx Hy. unfold okm in *. rewrite E, Hc, Hx, Hy. reflexivity. Qed.
+
+Lemma parse_frag_ok : forall f kids st new st1,
+  parse_frag f kids st = Ok (new, st1) -> Forall okm st -> okm new /\ Forall okm st1.
+Proof.
+  intros f kids st new st1 H HF.
+  destruct f as [| | | | | | |h| | | | | | | | | | | | | | |]; cbn [MsTextModel.parse_frag] in H;
+    try (destruct h);
+    try (unfold hash_frag, key_frag in H;
+         match type of H with obind ?o _ = _ => destruct o; cbn [obind] in H; try discriminate end;
+         inversion H; subst; split; [reflexivity | assumption]);
+    try (eapply binary_ok; [|exact H|exact HF]; intros; apply okm_bin; auto; fail).
+  - (* after *) destruct (verify_lock EAbsLock kids) eqn:E; cbn [obind] in H; try discriminate.
+    inversion H; subst. split; [|assumption]. apply vlock_spec in E. exact E.
+  - destruct (verify_lock ERelLock kids) eqn:E; cbn [obind] in H; try discriminate.
+    inversion H; subst. split; [|assumption]. apply vlock_spec in E. exact E.
+  - destruct kids; [|discriminate]. inversion H; subst. split; [reflexivity|assumption].
+  - destruct kids; [|discriminate]. inversion H; subst. split; [reflexivity|assumption].
+  - (* and_n *) eapply binary_ok; [|exact H|exact HF]. intros x y Hc Hx Hy. unfold okm in *.
+    cbn [MsTextModel.ms_text_ok]. rewrite Hc, Hx, Hy. reflexivity.
+  - (* andor *) destruct kids as [|? [|? [|? [|? ?]]]]; try discriminate.
+    destruct st as [|a [|b [|c st]]]; try discriminate. cbn [pop obind] in H.
+    destruct (from_ast (MAndOr a b c)) eqn:E; cbn [obind] in H; try discriminate.
+    inversion H; subst. apply from_ast_ok in E. destruct E as [-> Hc].
+    inversion HF as [|? ? Ha HF1]; subst. inversion HF1 as [|? ? Hb HF2]; subst. inversion HF2 as [|? ? Hcc HF3]; subst.
+    split; [|assumption]. unfold okm in *. cbn [MsTextModel.ms_text_ok]. rewrite Hc, Ha, Hb, Hcc. reflexivity.
+  - (* thresh *) destruct (verify_threshold 0 kids) as [[k rest]| |] eqn:E; cbn [obind] in H; try discriminate.
+    destruct (pop_n (length rest) st) as [[subs st2]| |] eqn:E2; cbn [obind] in H; try discriminate.
+    destruct (from_ast (MThresh k subs)) eqn:E3; cbn [obind] in H; try discriminate.
+    inversion H; subst. apply from_ast_ok in E3. destruct E3 as [-> Hc].
+    apply vth_spec in E. destruct E as [Hv Hk]. apply pop_n_spec in E2. destruct E2 as [-> Hl].
+    apply Forall_app in HF. destruct HF as [Hs Hr]. split; [|assumption].
+    unfold okm. cbn [MsTextModel.ms_text_ok]. rewrite Hc, Hl, Hv. cbn [andb].
+    replace (k <=? U32_MAX) with true by (symmetry; apply N.leb_le; exact Hk). cbn [andb].
+    apply forallb_forall. intros x Hx. rewrite Forall_forall in Hs. apply Hs. exact Hx.
+  - eapply multi_ok; [|exact H|exact HF]. intros k ks Hc Hv. unfold okm. cbn [MsTextModel.ms_text_ok]. rewrite Hc, Hv. reflexivity.
+  - eapply multi_ok; [|exact H|exact HF]. intros k ks Hc Hv. unfold okm. cbn [MsTextModel.ms_text_ok]. rewrite Hc, Hv. reflexivity.
+  - eapply multi_ok; [|exact H|exact HF]. intros k ks Hc Hv. unfold okm. cbn [MsTextModel.ms_text_ok]. rewrite Hc, Hv. reflexivity.
+  - eapply multi_ok; [|exact H|exact HF]. intros k ks Hc Hv. unfold okm. cbn [MsTextModel.ms_text_ok]. rewrite Hc, Hv. reflexivity.
+Qed.
+
+Lemma wrap_ok : forall c m t, wrap_term c m = Ok t -> chk t = true -> okm m -> okm t.
+Proof.
+  intros c m t H Hc Hm. unfold wrap_term in H. unfold okm in *.
+  repeat match type of H with (if ?b then _ else _) = _ => destruct b end;
+    try discriminate; inversion H; subst; cbn [MsTextModel.ms_text_ok]; rewrite ?Hc, ?Hm; try reflexivity.
+  (* c: *) destruct m; cbn [MsTextModel.ms_text_ok] in *; rewrite ?Hc, ?Hm; reflexivity.
+Qed.
+
+Lemma apply_wrappers_ok : forall w m m', apply_wrappers w m = Ok m' -> okm m -> okm m'.
+Proof.
+  induction w as [|c w IH]; intros m m' H Hm.
+  - inversion H; subst. exact Hm.
+  - cbn [MsTextModel.apply_wrappers] in H. destruct (wrap_term c m) eqn:E; cbn [obind] in H; try discriminate.
+    destruct (from_ast a) eqn:E2; cbn [obind] in H; try discriminate.
+    apply from_ast_ok in E2. destruct E2 as [-> Hc]. eapply IH; [exact H|]. eapply wrap_ok; eauto.
+Qed.
+
+Lemma step_ok : forall st it st', step st it = Ok st' -> Forall okm st -> Forall okm st'.
+Proof.
+  intros st it st' H HF. unfold MsTextModel.step in H.
+  destruct (skip_item it) as [sk| |]; cbn [obind] in H; try discriminate.
+  destruct sk; [inversion H; subst; exact HF|].
+  destruct (name_separated (it_name it)) as [[fw fname]| |]; cbn [obind] in H; try discriminate.
+  destruct (frag_of_name fname) as [f|]; [|discriminate].
+  destruct (parse_frag f (it_kids it) st) as [[new st1]| |] eqn:E; cbn [obind] in H; try discriminate.
+  destruct (parse_frag_ok _ _ _ _ _ E HF) as [Hn Hs].
+  destruct fw as [w|]; [|inversion H; subst; constructor; assumption].
+  destruct w as [|c w]; [discriminate|].
+  destruct (apply_wrappers (rev (c :: w)) new) eqn:E2; cbn [obind] in H; try discriminate.
+  inversion H; subst. constructor; [|assumption]. eapply apply_wrappers_ok; eauto.
+Qed.
+
+Lemma run_ok : forall items st st', run st items = Ok st' -> Forall okm st -> Forall okm st'.
+Proof.
+  induction items as [|it r IH]; intros st st' H HF.
+  - inversion H; subst. exact HF.
+  - cbn [MsTextModel.run] in H. destruct (step st it) eqn:E; cbn [obind] in H; try discriminate.
+    eapply IH; [exact H|]. eapply step_ok; eauto.
+Qed.
+
+Theorem parse_valid : forall t m, from_tree t = Ok m -> ms_text_ok m = true.
+Proof.
+  intros t m H. unfold MsTextModel.from_tree in H. destruct (has_curly t); [discriminate|].
+  destruct (run [] (rpo None t)) as [st| |] eqn:E; try discriminate.
+  destruct st as [|m' [|? ?]]; try discriminate. inversion H; subst.
+  apply run_ok in E; [|constructor]. inversion E; assumption.
+Qed.
+
+(* parsing lands on a fixed point of print-then-parse: the printed form of whatever was parsed
+   parses to the same AST (and therefore prints identically again) *)
+Theorem print_fixpoint : forall t m, from_tree t = Ok m ->
+  from_tree (to_tree m) = Ok m /\
+  (forall m', from_tree (to_tree m) = Ok m' -> to_tree m' = to_tree m).
+Proof.
+  intros t m H. pose proof (print_parse m (parse_valid t m H)) as Hp. split; [exact Hp|].
+  intros m' H'. rewrite Hp in H'. inversion H'. reflexivity.
+Qed.
+
 End TextProofs.
